@@ -101,7 +101,7 @@ var rewritePkgs = []string{
 // pid and signal delivery to the simulated namespace / process table.
 const replaceSpec = "src.elv.sh/pkg/daemon:net.Listen=NetListen,net.Dial=NetDial,os.Lstat=FSLstat,os.Remove=FSRemove,syscall.Getpid=Getpid,os.Process.Signal=ProcSignal"
 
-const hbSpec = "src.elv.sh/pkg/eval.Evaler.global,src.elv.sh/pkg/eval.Evaler.builtin,src.elv.sh/pkg/eval.Evaler.deprecations,src.elv.sh/pkg/eval.Evaler.modules,src.elv.sh/pkg/eval.Evaler.evalCount,maptype:map[string]*src.elv.sh/pkg/eval.Ns,maptype:map[pkg.nimblebun.works/go-lsp.DocumentURI]src.elv.sh/pkg/lsp.document,maptype:*,elems:src.elv.sh/pkg/eval.Ns.slots"
+const hbSpec = "src.elv.sh/pkg/eval.Evaler.global,src.elv.sh/pkg/eval.Evaler.builtin,src.elv.sh/pkg/eval.Evaler.deprecations,src.elv.sh/pkg/eval.Evaler.modules,src.elv.sh/pkg/eval.Evaler.evalCount,maptype:map[string]*src.elv.sh/pkg/eval.Ns,maptype:map[pkg.nimblebun.works/go-lsp.DocumentURI]src.elv.sh/pkg/lsp.document,maptype:*,captured,elems:src.elv.sh/pkg/eval.Ns.slots,elems:src.elv.sh/pkg/eval.Frame.ports,src.elv.sh/pkg/eval.Frame.*,src.elv.sh/pkg/eval.Port.*,src.elv.sh/pkg/eval.Ns.*,src.elv.sh/pkg/eval.Closure.*,src.elv.sh/pkg/eval.Evaler.*,src.elv.sh/pkg/rpc.Client.*,src.elv.sh/pkg/rpc.Call.*,src.elv.sh/pkg/rpc.Server.*,src.elv.sh/pkg/rpc.gobClientCodec.*,src.elv.sh/pkg/rpc.gobServerCodec.*,src.elv.sh/pkg/daemon.client.*,src.elv.sh/pkg/daemon.service.*,src.elv.sh/pkg/edit/highlight.Highlighter.*,src.elv.sh/pkg/edit/highlight.cache.*,src.elv.sh/pkg/cli.loop.*,src.elv.sh/pkg/lsp.server.*,src.elv.sh/pkg/store.dbStore.*"
 
 // prepare builds the harness binary in a fresh scratch directory and returns
 // (scratch dir, path of the test binary).
